@@ -12,6 +12,7 @@
   log to the event vocabulary of Trace_LCDSearch.tla (shared with harness/vproc.py)."""
 import json
 import os
+import re
 import random
 import signal
 import time as _time
@@ -1066,6 +1067,12 @@ def real_case(cid, obs, kernel, table, ids, seq=None, kind="cyc", edges=None, sa
                  "killed": [w for w, x in enumerate(obs["exitcodes"]) if x is not None and x < 0],
                  "orphans": len(obs["left"]) + len([a for a in obs["active"] if a not in [l[0] for l in obs["left"]]]),
                  "dups": len(obs["defects"])}}
+    # whether the time limit had passed when the first worker was killed, by the harness's own clock (the
+    # code's clock reads are visible only while it reads the clock through kernel_dg.time)
+    starts = [e["t"] for e in obs["raw"] if e["k"] == "pstart"]
+    kills = [e["t"] for e in obs["raw"] if e["k"] == "kill"]
+    if obs["timeout"] != -1 and starts:
+        c["obs"]["deadlinePassed"] = bool(((min(kills) if kills else obs["t1"]) - min(starts)) / 1e9 >= obs["timeout"] - 0.02)
     if kind == "cyc":
         c["cyc"], c["np"] = table["cyc"], table["np"]
         if seq is not None:
@@ -1477,6 +1484,25 @@ def _guarded(fn, item, conn):
             os.killpg(os.getpgid(0), signal.SIGKILL)   # nothing the job started may outlive it (orphaned workers)
         except OSError:
             pass
+
+
+_GAP = re.compile(r"(AttributeError|TypeError|NotImplementedError): .*('Fake\w*'|'_VClock'|'_SlowNx'|'_SlowList'|'_LoggedList'|"
+                  r"'types\.SimpleNamespace'|'SimpleNamespace'|module 'osaca\.semantics\.kernel_dg' has no attribute)")
+
+
+def standin_gap(text):
+    """True iff an exception text says that the code under test used an interface that one of the harness's stand-ins
+    (virtual processes, virtual clock, slowed path enumeration) does not provide, or that kernel_dg no longer has the
+    collaborator a scenario replaces: the scenario cannot observe this code - a conformance divergence, never a verdict."""
+    return bool(_GAP.search(str(text or "")))
+
+
+def fail_or_gap(run, sig, what, case, scenario):
+    if "exception" in sig and standin_gap(what):
+        run.divergence("stand-in", {"scenario": scenario, "signature": sig, "what": str(what)[:300]})
+        return False
+    run.fail(sig, what, case)
+    return True
 
 
 def pool_map(fn, items, procs, deadline=240.0):
